@@ -15,6 +15,7 @@ use svm::Ledger;
 fn worlds(thorough: bool) -> Vec<Built> {
     let mut v = vec![stdworlds::build_with_roots(&stdworlds::std_spec("c01-std-dff", [Enc::Dynamic, Enc::Fixed, Enc::Fixed], 3000, 300), &stdworlds::std_roots())];
     v.push(stdworlds::build_with_roots(&stdworlds::chain_spec("c01-chain-fdd", [Enc::Fixed, Enc::Dynamic, Enc::Dynamic], 60000, 2500), &stdworlds::chain_roots()));
+    v.push(stdworlds::build_with_roots(&stdworlds::chain_spec("c01-dust-dfd", [Enc::Dynamic, Enc::Fixed, Enc::Dynamic], 3000, 2500), &stdworlds::dust_roots()));
     if thorough {
         v.push(stdworlds::build_with_roots(&stdworlds::std_spec("c01-std-fdd", [Enc::Fixed, Enc::Dynamic, Enc::Dynamic], 60000, 2500), &stdworlds::std_roots()[1..4]));
     }
@@ -35,7 +36,11 @@ fn worlds(thorough: bool) -> Vec<Built> {
 
 fn alphabet(b: &Built) -> Vec<Op> {
     let n = b.w.positions.len() as u8;
-    stdworlds::std_alphabet(n, false)
+    if b.name.contains("dust") {
+        stdworlds::dust_alphabet(n)
+    } else {
+        stdworlds::std_alphabet(n, false)
+    }
 }
 
 struct Counters {
